@@ -429,6 +429,9 @@ func (e *Engine) deliver(st *State, kind retKind, res Value) {
 		st.top().pc++
 	case retRerun:
 		// a lazily scheduled goroutine finished: the blocked instruction is executed again
+		if n := len(st.lazyBase); n > 0 && st.lazyBase[n-1] == len(st.frames) {
+			st.lazyBase = st.lazyBase[:n-1]
+		}
 	case retDefer:
 		c := st.top()
 		if c.status == stPanicking || c.status == stComplete {
@@ -1392,10 +1395,12 @@ func (e *Engine) execUnOp(st *State, f *Frame, ins *ssa.UnOp) {
 			ok = false
 		} else if e.runLazyGo(st, ins) {
 			return
-		} else if o.isTimer && o.timerActive {
+		} else if o.isTimer && o.timerActive && !o.hasAfter {
 			// nothing else can happen: the armed timer/ticker fires
 			st.clock += e.fireTimer(st, ch.obj)
 			v = AggVal{[]Value{e.ctx.BV(64, 1<<63), e.ctx.BV(64, uint64(st.clock)), PtrVal{}}}
+		} else if e.fireAfterFunc(st, ins) {
+			return
 		} else {
 			e.unsupported(st, "blocking channel receive")
 		}
